@@ -327,6 +327,12 @@ def run(prop, tier):
             rec["origin"] = "family:text-prompt"
             records.append(rec)
         cov["outcome_drift"] = drift
+        # supplementary (not one of the listed properties): the application protocol above the wormhole API, XferProto.tla
+        try:
+            from . import xferproto
+            cov["supplementary"] = {"xfer_proto": xferproto.run_family(wd, quick, seed)}
+        except Exception as e:
+            cov["supplementary"] = {"xfer_proto": {"error": repr(e)[:300]}}
         path = wd.file("obs.ndjson")
         with open(path, "w") as f:
             for rec in records:
